@@ -154,3 +154,61 @@
         assert(x * y < pm * pn) by (nonlinear_arith) requires 0 <= x < pm, 0 <= y < pn;
         lemma_bitlen_le(abs(a * b), m + n);
     }
+
+    pub proof fn lemma_bitlen_shl(a: int, k: nat)
+        ensures bitlen(abs(a * pow2(k))) <= bitlen(abs(a)) + k
+    {
+        let m = bitlen(abs(a));
+        lemma_bitlen_le(abs(a), m);
+        lemma_pow2_adds(m, k);
+        lemma_pow2_pos(k);
+        let x = abs(a) as int;
+        let pk = pow2(k) as int;
+        let pm = pow2(m) as int;
+        assert(abs(a * pk) as int == x * pk) by (nonlinear_arith)
+            requires x == (if a < 0 { -a } else { a }), pk > 0,
+                     abs(a * pk) as int == (if a * pk < 0 { -(a * pk) } else { a * pk });
+        assert(x * pk < pm * pk) by (nonlinear_arith) requires 0 <= x < pm, pk > 0;
+        lemma_bitlen_le(abs(a * pk), m + k);
+    }
+
+    /// the top bit of a positive value is set
+    pub proof fn lemma_top_bit(v: int)
+        requires v > 0
+        ensures bit_of(v, (bitlen(v as nat) - 1) as nat), bitlen(v as nat) >= 1
+    {
+        let m = bitlen(v as nat);
+        lemma_bitlen_le(v as nat, m);
+        lemma_bitlen_le(v as nat, (m - 1) as nat);
+        lemma_pow2_unfold(m);
+        lemma_pow2_pos((m - 1) as nat);
+        let p = pow2((m - 1) as nat) as int;
+        lemma_div_unique(v, p, 1, v - p);
+    }
+
+    /// a value whose bits at and above n are all clear lies in [0, 2^n)
+    pub proof fn lemma_bits_bound(v: int, n: nat)
+        requires forall|j: nat| j >= n ==> !#[trigger] bit_of(v, j)
+        ensures 0 <= v < pow2(n)
+    {
+        if v < 0 {
+            let w = (-v) as nat;
+            let m = bitlen(w);
+            let j = if m >= n { m } else { n };
+            lemma_bitlen_le(w, m);
+            if j > m { lemma_pow2_strictly_increases(m, j); }
+            let p = pow2(j) as int;
+            lemma_div_unique(v, p, -1, v + p);
+            assert(bit_of(v, j));
+        } else if v > 0 {
+            lemma_top_bit(v);
+            let m = bitlen(v as nat);
+            if m > n {
+                assert(bit_of(v, (m - 1) as nat));
+                assert(false);
+            }
+            lemma_bitlen_le(v as nat, n);
+        } else {
+            lemma_pow2_pos(n);
+        }
+    }
